@@ -100,9 +100,24 @@ def _run_one(idx, case):
 
 def _exec_case(mod, case):
     import numpy as np
+    import warnings
     np.random.seed(_SEED % (2 ** 32))
+    watch = getattr(mod, "GLOBAL_STATE_ORACLE", False)
+    if watch:
+        g0 = (dict(np.geterr()), dict(np.get_printoptions()), len(warnings.filters))
     try:
         res = mod.run_case(case, _SEED)
+        if watch:
+            g1 = (dict(np.geterr()), dict(np.get_printoptions()), len(warnings.filters))
+            if g1 != g0:
+                what = [n for n, a, b in zip(("numpy error state (np.seterr)", "numpy print options", "warnings filters"), g0, g1) if a != b]
+                np.seterr(**g0[0])
+                np.set_printoptions(**g0[1])
+                del warnings.filters[:max(0, len(warnings.filters) - g0[2])]
+                res.setdefault("viol", []).append({"oracle": "process-state-changed", "key": {"site": "process-global state", "when": ", ".join(what)},
+                                                   "detail": "the calls of this case left %s changed: %s -> %s" % (
+                                                       ", ".join(what), [a for a, b in zip(g0, g1) if a != b], [b for a, b in zip(g0, g1) if a != b])})
+                res["outcome"] = "violation:process-state-changed" if not str(res.get("outcome", "")).startswith("violation") else res["outcome"]
     except Exception as e:
         if _through_sigpy(e.__traceback__) or any(
                 _through_sigpy(x.__traceback__) for x in _chain(e)):
